@@ -290,16 +290,12 @@ def drive(case, expect):
         if out.exc is None:
             # what scheduler / executor components do in their initialize():
             # same factory call, the registry now holds rm.<name>
-            n_probe = len(FakeProcess.created)
-            n_qstat = len(out.qstat)
             try:
                 rm2 = make()
                 out.info2 = copy.deepcopy(rm2.info.as_dict())
             except Exception as e:      # noqa
                 out.exc2 = e
             out.reg_b = copy.deepcopy(net.registry(REG_URL))
-            out.reprobed = (len(FakeProcess.created) != n_probe or
-                            len(out.qstat) != n_qstat)
     finally:
         rm_base.ResourceManager._prepare_launch_methods = saved_prep
         rm_fork.multiprocessing = saved_mp
